@@ -18,7 +18,7 @@ package zkmod
 //@ func (*Proof).Verify
 //@   use bits
 //@   nopanic[C05]
-//@   modifies hstate(hash)
+//@   modifies hstate(hash), wlog(hash.h)
 //@   requires public.N != nil && hash != nil && hash.h != nil
 
 //@ func challenge
